@@ -43,7 +43,8 @@
 //!   meets a cache filled with the pre-rollback answers; the same texts must return the record afterwards.
 //!   What fails only with the cache is `c08:query-cache:stale-after-rollback:<sync|async|..>`, what fails
 //!   only through another entry point `c08:<async|..>-entry:<check>`.
-//! Parts with the same max_checkpoints are explored concurrently; their reports are applied in part order.
+//! The parts are explored concurrently (a thread per part, worker processes per BFS level); their reports
+//!   are applied in part order, so the evidence does not depend on the interleaving.
 use nvc::Report;
 use query_router::{QueryResult, QueryRouter};
 use serde_json::{json, Value};
@@ -52,10 +53,17 @@ use std::hash::{Hash, Hasher};
 use tensor_checkpoint::CheckpointConfig;
 use tensor_store::TensorStore;
 
-static MAX_CP: std::sync::atomic::AtomicUsize = std::sync::atomic::AtomicUsize::new(2);
+// per thread: parts with different max_checkpoints are explored concurrently; a thread that is
+// spawned for a replay inherits the value of the thread that spawns it (run_isolated, part_s)
+thread_local! {
+    static MAX_CP: std::cell::Cell<usize> = const { std::cell::Cell::new(2) };
+}
+fn set_max_cp(k: usize) {
+    MAX_CP.with(|c| c.set(k));
+}
 /// the configured `max_checkpoints` of the routers built by this process
 fn max_cp() -> usize {
-    MAX_CP.load(std::sync::atomic::Ordering::Relaxed)
+    MAX_CP.with(std::cell::Cell::get)
 }
 /// router configuration of a part: auto-checkpoint on/off, store kind (0 = TensorStore::new(),
 /// 1 = with_bloom_filter(4096, 0.001), 2 = with_default_bloom_filter())
@@ -259,6 +267,10 @@ fn battery_queries() -> Vec<(Fam, String)> {
     v
 }
 
+/// reads of the battery whose answers the router's query cache keeps (`QueryRouter::is_cacheable_statement`)
+fn is_cacheable(q: &str) -> bool {
+    q.starts_with("SELECT") || q.starts_with("NEIGHBORS") || q.starts_with("SIMILAR")
+}
 fn is_scan(q: &str) -> bool {
     q.contains(" LIST")
 }
@@ -332,7 +344,7 @@ impl Sys {
     /// run the reads of the battery whose answers the router caches (SELECT, NEIGHBORS, SIMILAR); returns their number
     fn fill_cache(&self) -> u64 {
         let mut n = 0;
-        for (_, q) in self.queries.iter().filter(|(_, q)| q.starts_with("SELECT") || q.starts_with("NEIGHBORS") || q.starts_with("SIMILAR")) {
+        for (_, q) in self.queries.iter().filter(|(_, q)| is_cacheable(q)) {
             let _ = self.exec(q);
             n += 1;
         }
@@ -343,8 +355,21 @@ impl Sys {
         self.r.cache().map_or(0, |c| c.len() as u64)
     }
     /// full = including the LIST scans (each of them builds a tokio runtime inside the router: ~0.5 ms)
+    /// The reads the router caches (SELECT, NEIGHBORS, SIMILAR) are executed first, the others after
+    /// them: the router counts every NODE / EDGE / EMBED statement, NODE GET and NODE LIST included, as
+    /// a write that empties the query cache, so in battery order the cache would be emptied before
+    /// SIMILAR is asked again.  The observation itself is in battery order.
     fn observe(&self, full: bool) -> Obs {
-        Obs { reads: self.queries.iter().filter(|(_, q)| full || !is_scan(q)).map(|(f, q)| (fam_idx(*f), q.clone(), canon(&self.exec(q)))).collect() }
+        let qs: Vec<&(Fam, String)> = self.queries.iter().filter(|(_, q)| full || !is_scan(q)).collect();
+        let mut res: Vec<Option<Res>> = vec![None; qs.len()];
+        for pass in [true, false] {
+            for (i, (_, q)) in qs.iter().enumerate() {
+                if is_cacheable(q) == pass {
+                    res[i] = Some(canon(&self.exec(q)));
+                }
+            }
+        }
+        Obs { reads: qs.iter().zip(res).map(|((f, q), r)| (fam_idx(*f), q.clone(), r.expect("every read executed"))).collect() }
     }
     /// what CHECKPOINTS lists, most recent first (None = the statement failed)
     fn listed(&self) -> Option<Vec<Listed>> {
@@ -736,6 +761,12 @@ fn rollback_and_check(sys: &Sys, m: &mut Model, cx: &mut Ctx, cp: &Cp, phase: &s
         cx.out.other_is_prefix_of_name += u64::from(others.iter().any(|o| o.name != cp.name && cp.name.starts_with(&o.name)));
         cx.out.prefix_confusable += u64::from(others.iter().any(|o| prefix_related(&o.name, &cp.name) && m.rec.get(&o.ord).map(Obs::cheap) != m.rec.get(&cp.ord).map(Obs::cheap)));
     }
+    if sys.cfg.cache {
+        // the battery before this point ended with reads that the router counts as writes: put every
+        // cacheable answer (back) into the cache right before the ROLLBACK
+        cx.out.reads += sys.fill_cache();
+        cx.out.cache_filling_batteries += 1;
+    }
     let cached = sys.cached_entries();
     cx.out.rollbacks_with_populated_cache += u64::from(cached > 0);
     cx.out.cached_entries_before_rollbacks += cached;
@@ -944,9 +975,8 @@ fn run(hist: &[St], cfg: Cfg, selftest: bool, verbose: bool) -> Outcome {
                     cx.out.nontrivial.push((h64(&(&rec, &cur), 1), added, removed, cp.auto));
                 }
                 if cfg.cache {
-                    let cacheable = |q: &str| q.starts_with("SELECT") || q.starts_with("NEIGHBORS") || q.starts_with("SIMILAR");
                     // the router caches successful answers only
-                    let differs = rec.reads.iter().zip(&cur.reads).any(|(a, b)| cacheable(&b.1) && b.2.is_some() && a.2 != b.2);
+                    let differs = rec.reads.iter().zip(&cur.reads).any(|(a, b)| is_cacheable(&b.1) && b.2.is_some() && a.2 != b.2);
                     cx.out.cached_answer_differs_from_record += u64::from(differs);
                 }
                 cx.out.auto_rollback_checks += u64::from(cp.auto);
@@ -1065,10 +1095,12 @@ fn finish_key(out: &mut Outcome, cur: &Obs, m: &Model, cfg: Cfg) {
 /// every replay runs in its own OS thread with the same entropy label: uuids and HashMap seeds are
 /// identical for every replay, whatever rayon thread hosts it
 fn run_isolated(hist: &[St], cfg: Cfg, selftest: bool, seed: u64, verbose: bool) -> Outcome {
+    let k = max_cp();
     std::thread::scope(|sc| {
         std::thread::Builder::new()
             .stack_size(4 << 20)
-            .spawn_scoped(sc, || {
+            .spawn_scoped(sc, move || {
+                set_max_cp(k);
                 nvc::env::set_thread_seed(seed);
                 run(hist, cfg, selftest, verbose)
             })
@@ -1215,6 +1247,8 @@ fn run_slice(tasks: &[Vec<St>], me: usize, n: usize, cfg: Cfg, selftest: bool) -
 }
 
 fn run_level(part: &str, tasks: &[Vec<St>], workers: usize, cfg: Cfg, selftest: bool, level: usize) -> Vec<Slice> {
+    // a worker process per ~20 histories: parts run concurrently, a small level does not pay for 16 processes
+    let workers = workers.min(tasks.len() / 20);
     if tasks.len() < 64 || workers <= 1 {
         return vec![run_slice(tasks, 0, 1, cfg, selftest)];
     }
@@ -1304,8 +1338,10 @@ fn part_s(rep: &mut Report, seeds: u64) -> (u64, u64) {
     let mut bad = 0;
     for n in 3..=5usize {
         for seed in 1..=seeds {
+            let k = max_cp();
             let listed = std::thread::scope(|sc| {
-                sc.spawn(|| {
+                sc.spawn(move || {
+                    set_max_cp(k);
                     nvc::env::set_thread_seed(seed);
                     let sys = Sys::new(Cfg::default());
                     for i in 1..=n {
@@ -1356,7 +1392,7 @@ fn main() {
     nvc::env::clock_freeze(1_700_000_000);
 
     if let Some(k) = rep.args.flag("maxcp").and_then(|s| s.parse().ok()) {
-        MAX_CP.store(k, std::sync::atomic::Ordering::Relaxed);
+        set_max_cp(k);
     }
     let mode_cfg = Cfg::decode(rep.args.flag("mode").and_then(|s| s.parse().ok()).unwrap_or(0));
     if let (Some((me, n)), Some(path)) = (rep.args.worker, rep.args.flag("tasks")) {
@@ -1391,7 +1427,7 @@ fn main() {
         let body: Value = serde_json::from_str(&std::fs::read_to_string(&path).expect("read replay")).expect("replay json");
         let r = &body["replay"];
         if let Some(k) = r["max_checkpoints"].as_u64() {
-            MAX_CP.store(k as usize, std::sync::atomic::Ordering::Relaxed);
+            set_max_cp(k as usize);
         }
         let mut n = 0;
         if r["part"] == "S" {
@@ -1449,18 +1485,18 @@ fn main() {
             configs.push(Part { name: "B", cfg: bloom, k: 2, depth: 5, extra: true, alphabet: &alphabet });
             configs.push(Part { name: "B_default_filter", cfg: Cfg { bloom: 2, ..plain }, k: 2, depth: 4, extra: true, alphabet: &alphabet });
             configs.push(Part { name: "AB", cfg: Cfg { auto: true, bloom: 1, ..plain }, k: 2, depth: 4, extra: true, alphabet: &alphabet_a });
-            configs.push(Part { name: "Q_sync", cfg: q_sync, k: 2, depth: 5, extra: true, alphabet: &alphabet });
+            configs.push(Part { name: "Q_sync", cfg: q_sync, k: 2, depth: 4, extra: true, alphabet: &alphabet });
             configs.push(Part { name: "Q_async", cfg: q_async, k: 2, depth: 5, extra: true, alphabet: &alphabet });
             configs.push(Part { name: "Q_async_max3", cfg: Cfg { names: 1, ..q_async }, k: 3, depth: 4, extra: true, alphabet: &alphabet });
             configs.push(Part { name: "E_async", cfg: Cfg { entry: 1, ..plain }, k: 2, depth: 4, extra: true, alphabet: &alphabet });
-            configs.push(Part { name: "E_legacy", cfg: legacy, k: 2, depth: 4, extra: true, alphabet: &alphabet });
             configs.push(Part { name: "Q_legacy", cfg: Cfg { cache: true, names: 1, ..legacy }, k: 2, depth: 4, extra: true, alphabet: &alphabet });
             configs.push(Part { name: "Q_cluster", cfg: Cfg { cache: true, entry: 3, ..plain }, k: 2, depth: 4, extra: true, alphabet: &alphabet });
         } else {
             configs.push(Part { name: "A", cfg: auto, k: 2, depth: 4, extra: true, alphabet: &alphabet_a });
-            configs.push(Part { name: "B", cfg: bloom, k: 2, depth: 4, extra: false, alphabet: &alphabet });
-            configs.push(Part { name: "Q_sync", cfg: q_sync, k: 2, depth: 4, extra: false, alphabet: &alphabet });
-            configs.push(Part { name: "Q_async", cfg: q_async, k: 2, depth: 4, extra: false, alphabet: &alphabet });
+            // depth 3 + the restricted level: the same histories ending in CHECKPOINT / ROLLBACK (all of <= 4 statements) as depth 4 without it
+            configs.push(Part { name: "B", cfg: bloom, k: 2, depth: 3, extra: true, alphabet: &alphabet });
+            configs.push(Part { name: "Q_sync", cfg: q_sync, k: 2, depth: 3, extra: true, alphabet: &alphabet });
+            configs.push(Part { name: "Q_async", cfg: q_async, k: 2, depth: 3, extra: true, alphabet: &alphabet });
             configs.push(Part { name: "Q_legacy", cfg: Cfg { cache: true, names: 1, ..legacy }, k: 2, depth: 3, extra: true, alphabet: &alphabet });
         }
     }
@@ -1486,7 +1522,7 @@ fn main() {
         describe(&|c| c.cfg.bloom != 0)
     ));
     rep.rule(&format!(
-        "Q (query cache) / E (entry points): the BFS of M (same alphabet, same oracle) on a router with QueryRouter::init_cache() (Q) and/or with every statement and every read going through another entry point: execute_parsed_async driven by QueryRouter::block_on (NODE LIST / EDGE LIST, which are not cacheable and build their own runtime, stay on execute_parsed), or CHECKPOINT / ROLLBACK TO through the string-command entry point execute, or through execute_for_cluster (= QueryExecutor::execute, result bytes not decoded); parts {:?}. With the cache on, the read battery (2 SELECT, 18 NEIGHBORS, 2 SIMILAR are cacheable) runs before the first and after every statement, so every answer the cache accepts is cached when ROLLBACK runs; after the ROLLBACK (and after every later statement of the tail) the same statement texts must return the recorded battery. A violating history is re-run without the cache, then through execute_parsed: what shows only with the cache is reported as c08:query-cache:stale-after-rollback:<sync|async|legacy-execute|cluster-execute> (other checks: c08:query-cache:<check>:<entry>), what shows only through the other entry point as c08:<async|legacy-execute|cluster-execute>-entry:<check>. If after a successful ROLLBACK every read equals the battery recorded for ANOTHER retained checkpoint (and not the target's), the violation is c08:rollback-by-name-restores-another-checkpoint / c08:rollback-by-id-restores-another-checkpoint instead of c08:rollback-data:*",
+        "Q (query cache) / E (entry points): the BFS of M (same alphabet, same oracle) on a router with QueryRouter::init_cache() (Q) and/or with every statement and every read going through another entry point: execute_parsed_async driven by QueryRouter::block_on (NODE LIST / EDGE LIST, which are not cacheable and build their own runtime, stay on execute_parsed), or CHECKPOINT / ROLLBACK TO through the string-command entry point execute, or through execute_for_cluster (= QueryExecutor::execute, result bytes not decoded); parts {:?}. With the cache on, the cacheable reads of the battery (2 SELECT, 18 NEIGHBORS, 2 SIMILAR) run before the first and after every statement and once more right before every ROLLBACK, so every answer the cache accepts is cached when ROLLBACK runs; after the ROLLBACK (and after every later statement of the tail) the same statement texts must return the recorded battery; every battery asks the cacheable reads first (the router empties the cache on every successful NODE / EDGE / EMBED statement, NODE GET and NODE LIST included). A violating history is re-run without the cache, then through execute_parsed: what shows only with the cache is reported as c08:query-cache:stale-after-rollback:<sync|async|legacy-execute|cluster-execute> (other checks: c08:query-cache:<check>:<entry>), what shows only through the other entry point as c08:<async|legacy-execute|cluster-execute>-entry:<check>. If after a successful ROLLBACK every read equals the battery recorded for ANOTHER retained checkpoint (and not the target's), the violation is c08:rollback-by-name-restores-another-checkpoint / c08:rollback-by-id-restores-another-checkpoint instead of c08:rollback-data:*",
         describe(&|c| c.cfg.cache || c.cfg.entry != 0)
     ));
     rep.assume("query-cache parts use only statements that go through one entry point (execute_parsed or execute_parsed_async): writes through the string-command parser `execute` (DropTableX) are kept out of them, their cache bookkeeping is not the subject of C08; auto-checkpoints are not combined with execute_parsed_async (protect_destructive_op blocks on the router's runtime, which tokio refuses inside block_on)");
@@ -1497,46 +1533,31 @@ fn main() {
     rep.assume("state keys are 128-bit SipHash values of the canonical state; a collision would merge two states");
 
     // ---- part S (sequential: it needs the clock to stand still)
-    MAX_CP.store(2, std::sync::atomic::Ordering::Relaxed);
+    set_max_cp(2);
     let (s_cases, s_bad) = part_s(&mut rep, 8);
     rep.part("S_same_second_retention", json!({"cases": s_cases, "violating": s_bad}));
 
     // ---- parts M, A, B
     let mut vacuous: Vec<String> = vec![];
-    // parts with the same max_checkpoints are explored concurrently (each with its own worker
-    // processes per BFS level: the first levels of a part are too small to occupy the machine, and
-    // MAX_CP is one per process); their reports are applied in part order
+    // the parts are explored concurrently, each in a thread of its own with its own worker processes
+    // per BFS level (the first levels of a part are too small to occupy the machine; max_checkpoints
+    // is per thread); their reports are applied in part order
     let sequential = rep.args.flag("sequential").is_some();
-    let mut slots: Vec<Option<(Stats, Deferred)>> = configs.iter().map(|_| None).collect();
-    let mut ks: Vec<usize> = vec![];
-    for c in &configs {
-        if !ks.contains(&c.k) {
-            ks.push(c.k);
-        }
-    }
-    for k in ks {
-        MAX_CP.store(k, std::sync::atomic::Ordering::Relaxed);
-        let group: Vec<usize> = (0..configs.len()).filter(|i| configs[*i].k == k).collect();
-        let run_one = |c: &Part| {
-            let mut d = Deferred::default();
-            let st = explore(&mut d, c, workers, selftest);
-            (st, d)
-        };
-        if sequential {
-            for i in group {
-                slots[i] = Some(run_one(&configs[i]));
-            }
-        } else {
-            let done: Vec<(usize, (Stats, Deferred))> = std::thread::scope(|sc| {
-                let (cfgs, run_one) = (&configs, &run_one);
-                let hs: Vec<_> = group.iter().map(|&i| (i, sc.spawn(move || run_one(&cfgs[i])))).collect();
-                hs.into_iter().map(|(i, h)| (i, h.join().expect("part thread panicked"))).collect()
-            });
-            for (i, r) in done {
-                slots[i] = Some(r);
-            }
-        }
-    }
+    let run_one = |c: &Part| {
+        set_max_cp(c.k);
+        let mut d = Deferred::default();
+        let st = explore(&mut d, c, workers, selftest);
+        (st, d)
+    };
+    let slots: Vec<Option<(Stats, Deferred)>> = if sequential {
+        configs.iter().map(|c| Some(run_one(c))).collect()
+    } else {
+        std::thread::scope(|sc| {
+            let run_one = &run_one;
+            let hs: Vec<_> = configs.iter().map(|c| sc.spawn(move || run_one(c))).collect();
+            hs.into_iter().map(|h| Some(h.join().expect("part thread panicked"))).collect()
+        })
+    };
     let results: Vec<(Stats, Deferred)> = slots.into_iter().map(|s| s.expect("every part explored")).collect();
     for (c, (st, d)) in configs.iter().zip(results) {
         d.apply(&mut rep);
